@@ -118,7 +118,7 @@ func randClientInfo(r *rand.Rand) proto.ClientInfo {
 		if r.Intn(2) == 0 {
 			ts = trace.TraceState{}
 		}
-		ci.Span = trace.NewSpanContext(trace.SpanContextConfig{TraceID: tid, SpanID: sid, TraceFlags: trace.TraceFlags(r.Intn(2)), TraceState: ts})
+		ci.Span = trace.NewSpanContext(trace.SpanContextConfig{TraceID: tid, SpanID: sid, TraceFlags: trace.TraceFlags([]int{0, 1, 2, 3, 0x80, 0xff, r.Intn(256)}[r.Intn(7)]), TraceState: ts})
 	}
 	return ci
 }
